@@ -186,7 +186,7 @@ func (e *env) runCase(worker, idx int) {
 	a := hostile(w, endpoint, classIdx, r, e.thorough)
 	resp := a.response()
 	var gate *fakeop.Gate
-	if a.Transport == "held-cancel" {
+	if a.Transport == "held-cancel" || a.Transport == "held-deadline" {
 		gate = fakeop.NewGate()
 		resp.Gate = gate
 	} else {
@@ -213,6 +213,12 @@ func (e *env) runCase(worker, idx int) {
 	if polling {
 		wait = 5 * time.Second // slow_down makes the helper sleep 5 s per round; the context ends the polling instead
 	}
+	if a.Transport == "held-deadline" {
+		wait = 400 * time.Millisecond
+		if polling {
+			wait = 1500 * time.Millisecond // the helper's own per-request time-out (its poll interval) comes first
+		}
+	}
 	ctx, cancel := context.WithTimeout(context.Background(), wait)
 	defer cancel()
 	w.ctx = ctx
@@ -228,7 +234,7 @@ func (e *env) runCase(worker, idx int) {
 	go func() {
 		done <- mon.Catch(func() { out = tg.run(w, endpoint) })
 	}()
-	if gate != nil {
+	if gate != nil && a.Transport == "held-cancel" {
 		go func() {
 			select {
 			case <-gate.Arrived():
